@@ -147,6 +147,8 @@ HISTORY.update({
     # fifth batch (two per property; authors were told which mechanisms earlier rounds had leaned on and asked for others): 13 caught, 9 refused, 16 missed as built
     "b5_C01_1": "caught as built", "b5_C01_2": "missed as built (the mismatch sits in a private intermediate that ends up inside log(...), whose dimension is decided anyway); "
                 "issues of private intermediates are now reported for every published relation that is built from them",
+    "b5_C03_1": "MISSED, as built and now: a second derivation inserts dsolve's integration constants by the names C1/C2, which dsolve numbers in the name-ordered canonical order "
+                "of the solution's terms (two counter states out of ten thousand swap them): the name-order clause of C03 is declared not applicable",
     "b5_C02_1": "MISSED, as built and now: substitutions built by zip(Matrix.vec(), chain.from_iterable(rows)) pair column-major symbols with row-major values; the pairing of two "
                 "computed sequences is not decided",
     "b5_C02_2": "caught as built (P1)",
